@@ -154,7 +154,7 @@ fn remove_body<const K: usize, const R: usize>() {
 fn c12_cps_remove_1_1() {
     remove_body::<1, 1>();
 }
-// @verif props=C12 tier=thorough timeout=3600 mem=30 unwind=8 bound="remove(2 intervals) from any well-formed set of 2 intervals" funcs="CodePointSet::remove"
+// @verif props=C12 tier=extended timeout=3600 mem=30 unwind=8 bound="remove(2 intervals) from any well-formed set of 2 intervals" funcs="CodePointSet::remove"
 #[kani::proof]
 #[kani::unwind(8)]
 fn c12_cps_remove_2_2() {
@@ -180,7 +180,7 @@ fn intersect_body<const K: usize, const R: usize>() {
 fn c12_cps_intersect_2_1() {
     intersect_body::<2, 1>();
 }
-// @verif props=C12 tier=thorough timeout=3600 mem=30 unwind=8 bound="intersect(2 intervals) with any well-formed set of 2 intervals" funcs="CodePointSet::intersect"
+// @verif props=C12 tier=extended timeout=3600 mem=30 unwind=8 bound="intersect(2 intervals) with any well-formed set of 2 intervals" funcs="CodePointSet::intersect"
 #[kani::proof]
 #[kani::unwind(8)]
 fn c12_cps_intersect_2_2() {
